@@ -37,6 +37,10 @@ THEOREMS = [
     "SqlglotModel.Properties.C17.generated_key_normalised_once",
     "SqlglotModel.Properties.C17.expand_key_normalised_once",
     "SqlglotModel.Properties.C17.expand_key_double_normalisation_witness",
+    "SqlglotModel.Properties.C17.generated_expand_alias_ok",
+    "SqlglotModel.Properties.C17.expand_alias_unique_per_reference",
+    "SqlglotModel.Properties.C17.expand_alias_last_part_witness",
+    "SqlglotModel.Properties.C17.expand_alias_forgets_quoting_witness",
     "SqlglotModel.Properties.C17.twoCol_ok",
     "SqlglotModel.Properties.C17.stale_key_without_column_witness",
     "SqlglotModel.Properties.C17.twoSubq_ok",
@@ -54,6 +58,8 @@ KEY_NAMES = {
 
 
 KEY_PASSES = [1]
+OUTER_LOOKUP = [False]  # set by translate(): to_node looks a column up in enclosing scopes (correlated subqueries)
+ALIAS_VARIANT = ["fullName"]
 WRAP_FORM = ["subquery_scopes"]  # set by translate(): how the Subquery-wrapper branch picks its inner scope
 
 
@@ -146,6 +152,32 @@ def translate(chk: Check) -> str:
     if n_lin is None or n_exp is None or n_ref is None:
         chk.broken.append({"kind": "translator", "what": f"C17 translator: structure changed: sources key normalisation (lineage={n_lin}, expand keys={n_exp}, reference={n_ref})"})
         n_lin, n_exp, n_ref = n_lin or 0, 1 if n_exp is None else n_exp, 1 if n_ref is None else n_ref
+    # does to_node look a source column up in enclosing scopes?  (today: no; the proposed repair: one recognised loop)
+    OUTER_LOOKUP[0] = False
+    for fn in [n for n in tree.body if isinstance(n, ast.FunctionDef) and n.name == "to_node"]:
+        loops = [n for n in ast.walk(fn) if isinstance(n, ast.While)]
+        for lp in loops:
+            if ast.unparse(lp.test) == "col_source is None and (outer_scope.is_subquery or outer_scope.is_union) and outer_scope.parent" \
+                    and [ast.unparse(x) for x in lp.body] == ["outer_scope = outer_scope.parent", "col_source = outer_scope.sources.get(table)"]:
+                OUTER_LOOKUP[0] = True
+            elif ".parent" in ast.unparse(lp):
+                chk.broken.append({"kind": "translator", "what": "C17 translator: structure changed: unrecognised enclosing-scope lookup in to_node"})
+    chk.cov["outer_scope_lookup"] = OUTER_LOOKUP[0]
+    # which expression the alias of the replacing derived table is built from
+    variant = None
+    try:
+        for fn in [n for n in btree.body if isinstance(n, ast.FunctionDef) and n.name == "expand"]:
+            subs = [n for n in ast.walk(fn) if isinstance(n, ast.Call) and ast.unparse(n.func) == "parsed_source.subquery"]
+            if len(subs) == 1 and len(subs[0].args) == 1 and not subs[0].keywords:
+                txt = ast.unparse(subs[0].args[0])
+                variant = {"node.alias or name": "fullName", "node.alias_or_name": "aliasOrName"}.get(txt, "other")
+    except NameError:
+        pass
+    if variant in (None, "other"):
+        chk.broken.append({"kind": "translator", "what": f"C17 translator: structure changed: alias of the expanded source ({variant})"})
+        variant = "other"
+    ALIAS_VARIANT[0] = variant
+    chk.cov["expand_alias_from"] = variant
     chk.cov["source_key_normalisations"] = {"lineage": n_lin, "expand": n_exp, "reference": n_ref}
     KEY_PASSES[0] = n_lin + n_exp
     return (
@@ -162,12 +194,14 @@ def translate(chk: Check) -> str:
         f"def keyNormalisations : Nat := {KEY_PASSES[0]}\n"
         f"/-- normalize_table_name passes over a table reference before the lookup -/\n"
         f"def refNormalisations : Nat := {n_ref}\n"
+        f"/-- the expression exp.expand builds the alias of the replacing derived table from -/\n"
+        f"def expandAliasVariant : AliasVariant := .{ALIAS_VARIANT[0]}\n"
         "end SqlglotModel.Generated.C17\n"
     )
 
 
 # ------------------------------------------------------------------------------------------ query IR
-BASE = {"t": ["a", "b", "c"], "u": ["a", "d"], "v": ["b", "e", "f", "g"]}
+BASE = {"t": ["a", "b", "c"], "u": ["a", "d"], "v": ["b", "e", "f", "g"], "orders": ["h", "i"]}
 DIALECTS = [None, "duckdb", "snowflake", "bigquery", "postgres", "mysql", "spark", "hive", "tsql", "mysql", "bigquery", "singlestore"]
 ALIASES = ["d", "e", "p", "q", "r", "s", "w"]
 OUTNAMES = ["x", "y", "z", "a", "b", "k", "m"]
@@ -181,16 +215,18 @@ class T:
 class S:
     """a sub-query used as a FROM source; `collist` = column-list alias; `ref_collist` = put it on the reference"""
 
-    def __init__(self, q, collist=None, ref_collist=False):
+    def __init__(self, q, collist=None, ref_collist=False, unaliased=False):
         self.q = q
         self.collist = collist
         self.ref_collist = ref_collist
+        self.unaliased = unaliased  # sources= presentation: referenced by its (possibly qualified) name, no AS
 
 
 class P:
     """projection: kind 'expr' (cols + scalar subqueries + literal), 'star', 'qstar' (alias.*)"""
 
-    def __init__(self, kind, name=None, cols=(), subqs=(), alias=None, bare=False):
+    def __init__(self, kind, name=None, cols=(), subqs=(), alias=None, bare=False, outer=()):
+        self.outer = list(outer)  # correlated: (alias, column) of the ENCLOSING select's sources used in this expression
         self.kind = kind
         self.name = name
         self.cols = list(cols)  # (source alias, column name)
@@ -200,7 +236,8 @@ class P:
 
 
 class Sel:
-    def __init__(self, projs, frm, where=None, distinct=False):
+    def __init__(self, projs, frm, where=None, distinct=False, bare=False):
+        self.bare = bare  # every column reference is written unqualified (all source column names are distinct)
         self.projs = projs
         self.frm = frm  # list of (alias, T|S)
         self.where = where  # (alias, col) used only in WHERE: does not flow
@@ -242,10 +279,11 @@ def col_flow(q, alias, col, path):
     return flow(src.q, src_names(src).index(col), path)
 
 
-def flow(q, i, path=""):
-    """ground truth: the base-table columns that syntactically flow into output column i"""
+def flow(q, i, path="", outer=None):
+    """ground truth: the base-table columns that syntactically flow into output column i
+    (`outer` = the enclosing select of a correlated scalar subquery)"""
     if isinstance(q, Uni):
-        return flow(q.left, i, path) | flow(q.right, i, path)
+        return flow(q.left, i, path, outer) | flow(q.right, i, path, outer)
     k = 0
     for p in q.projs:
         if p.kind == "expr":
@@ -254,7 +292,9 @@ def flow(q, i, path=""):
                 for a, c in p.cols:
                     out |= col_flow(q, a, c, path)
                 for sq in p.subqs:
-                    out |= flow(sq, 0, path)
+                    out |= flow(sq, 0, path, q)
+                for a, c in p.outer:
+                    out |= col_flow(outer, a, c, path)
                 return out
             k += 1
         else:
@@ -297,7 +337,11 @@ def features(q, acc=None, depth=0):
             seen[id(s.q)] = 1
             if isinstance(s.q, Uni):
                 acc.add("sub-union")
+            if s.unaliased:
+                acc.add("unaliased-src")
             features(s.q, acc, depth + 1)
+    if q.bare:
+        acc.add("bare-cols")
     if len(q.frm) > 1:
         acc.add("join")
         if any(p.kind == "star" for p in q.projs) and star_order_pattern(q.frm):
@@ -313,6 +357,8 @@ def features(q, acc=None, depth=0):
                 acc.add("scalar")
                 for sq in p.subqs:
                     features(sq, acc, depth + 1)
+            if p.outer:
+                acc.add("correlated")
             if len(p.cols) > 1:
                 acc.add("multi-col")
             if not p.cols and not p.subqs:
@@ -358,6 +404,12 @@ def gen_select(rng, depth, ncols=None, shared=None):
         frm.sort(key=lambda x: isinstance(x[1], S))
     all_names = [(a, n) for a, s in frm for n in src_names(s)]
     flat = [n for _, n in all_names]
+    sel_bare = len(set(flat)) == len(flat) and rng.random() < 0.3
+    if sel_bare:
+        # unqualified column references only: sources may then be referenced WITHOUT an alias
+        for _, s_ in frm:
+            if isinstance(s_, S) and not s_.collist and rng.random() < 0.75:
+                s_.unaliased = True
     projs = []
     if ncols is None and rng.random() < 0.3 and len(set(flat)) == len(flat):
         if rng.random() < 0.6 or nsrc == 1:
@@ -385,6 +437,16 @@ def gen_select(rng, depth, ncols=None, shared=None):
             subqs = [gen_query(rng, max(depth - 1, 0), ncols=1, allow_union=rng.random() < 0.3)]
             if rng.random() < 0.2:
                 subqs.append(gen_query(rng, 0, ncols=1, allow_union=False))
+            sq0 = subqs[0]
+            if isinstance(sq0, Sel) and sq0.projs[0].kind == "expr" and rng.random() < 0.5:
+                # correlate: the inner expression also uses a column of THIS select's sources; it is written bare or
+                # alias-qualified, so neither the name nor the alias may be captured by the inner FROM list
+                inner_cols = {n for _, s_ in sq0.frm for n in src_names(s_)}
+                inner_al = {a for a, _ in sq0.frm}
+                cand = [(a, c) for a, c in all_names if c not in inner_cols and a not in inner_al and flat.count(c) == 1]
+                if cand:
+                    sq0.projs[0] = P("expr", sq0.projs[0].name, sq0.projs[0].cols, sq0.projs[0].subqs, bare=False,
+                                     outer=[rng.choice(cand)])
         bare = len(cols) == 1 and not subqs and cols[0][1] not in used and rng.random() < 0.5
         if bare:
             name = cols[0][1]
@@ -394,7 +456,12 @@ def gen_select(rng, depth, ncols=None, shared=None):
         used.add(name)
         projs.append(P("expr", name=name, cols=cols, subqs=subqs, bare=bare))
     where = rng.choice(all_names) if rng.random() < 0.3 else None
-    return Sel(projs, frm, where, distinct=rng.random() < 0.1)
+    if sel_bare and any(p.kind == "qstar" for p in projs):
+        sel_bare = False
+        for _, s_ in frm:
+            if isinstance(s_, S):
+                s_.unaliased = False
+    return Sel(projs, frm, where, distinct=rng.random() < 0.1, bare=sel_bare)
 
 
 def gen_query(rng, depth, ncols=None, allow_union=True):
@@ -438,7 +505,8 @@ class Ctx:
 
 NAME_KW = ["select", "order", "group", "table"]
 NAME_FORMS = {0: "plain", 1: "quoted-mixed", 2: "quoted-lower", 3: "quoted-upper", 4: "quoted-space", 5: "quoted-keyword",
-              6: "unquoted-mixed", 7: "db-qualified", 8: "quoted-qualified"}
+              6: "unquoted-mixed", 7: "db-qualified", 8: "quoted-qualified", 9: "shared-last-part", 10: "quoted-shared-last-part"}
+NAME_DBS = ["stg", "mart", "fx", "ods", "dw"]
 
 
 def source_name_text(form, n, dialect, cte):
@@ -466,6 +534,12 @@ def source_name_text(form, n, dialect, cte):
         return f"src{n}" if cte else f"db.src{n}"
     if form == 8:
         return qid(f"Src{n}") if cte else qid("Db") + "." + qid(f"Src{n}")
+    if form in (9, 10):
+        # several qualified sources sharing their LAST part (stg.orders / mart.orders / …; also the base table `orders`)
+        db = NAME_DBS[(n - 1) % len(NAME_DBS)] + ("" if n <= len(NAME_DBS) else str(n))
+        if cte:
+            return db + "_orders"
+        return f"{db}.orders" if form == 9 else qid(db.capitalize()) + "." + qid("Orders")
     return ("c%d" if cte else "s%d") % n
 
 
@@ -481,15 +555,17 @@ def render_source(alias, s, ctx):
     name = ctx.name_for(s)
     if ctx.pres == "cte" and s.collist and not s.ref_collist:
         cl = ""
+    if ctx.pres == "src" and s.unaliased and not cl:
+        return name  # no alias: exp.expand names the derived table after the (full, normalised) source name
     return f"{name} AS {al}{cl}"
 
 
-def render(q, ctx):
+def render(q, ctx, outer=None):
     if isinstance(q, Uni):
         op = q.op
         if ctx.dialect == "bigquery" and not op.endswith("ALL"):
             op += " DISTINCT"
-        return f"{render(q.left, ctx)} {op} {render(q.right, ctx)}"
+        return f"{render(q.left, ctx, outer)} {op} {render(q.right, ctx, outer)}"
     # a column may be written unqualified when its name is unique among the sources
     counts = {}
     for _, s in q.frm:
@@ -515,7 +591,16 @@ def render(q, ctx):
         return "'" + txt + "'"
 
     def colref(a, c, i):
-        if counts.get(c) == 1 and ((sum(map(ord, a + c)) + i) % 3 == 0):
+        if q.bare or (counts.get(c) == 1 and ((sum(map(ord, a + c)) + i) % 3 == 0)):
+            return qid(c, i)
+        return f"{ctx.ren(a)}.{qid(c, i)}"
+
+    def outerref(a, c, i):
+        # a column of the enclosing select (generation guarantees: `c` is not a column of this FROM list, `a` is not
+        # one of its aliases, and `c` is unique among the enclosing sources)
+        if outer is None:
+            raise HarnessError("correlated projection rendered without its enclosing select")
+        if outer.bare or (sum(map(ord, a + c)) + i) % 2 == 0:
             return qid(c, i)
         return f"{ctx.ren(a)}.{qid(c, i)}"
 
@@ -526,7 +611,8 @@ def render(q, ctx):
         elif p.kind == "qstar":
             items.append(f"{ctx.ren(p.alias)}.*")
         else:
-            parts = [colref(a, c, i) for a, c in p.cols] + [f"({render(sq, ctx)})" for sq in p.subqs]
+            parts = ([colref(a, c, i) for a, c in p.cols] + [outerref(a, c, i) for a, c in p.outer]
+                     + [f"({render(sq, ctx, q)})" for sq in p.subqs])
             if (ctx.style & 2) and not p.bare and (not parts or (i + len(parts)) % 2 == 0):
                 parts = parts + [strlit(i)]
             e = " + ".join(parts) if parts else "1"
@@ -535,7 +621,7 @@ def render(q, ctx):
         render_source(*q.frm[0], ctx) + "".join(" CROSS JOIN " + render_source(a, s, ctx) for a, s in q.frm[1:]))
     sql = ("SELECT DISTINCT " if q.distinct else "SELECT ") + ", ".join(items) + " FROM " + frm
     if q.where:
-        sql += f" WHERE {ctx.ren(q.where[0])}.{q.where[1]} > 0"
+        sql += f" WHERE {q.where[1]} > 0" if q.bare else f" WHERE {ctx.ren(q.where[0])}.{q.where[1]} > 0"
     return sql
 
 
@@ -627,13 +713,17 @@ def norm_truth(s):
 
 
 # ------------------------------------------------------------------------------------------ model side
-def qualified(sql, sources, schema, dialect, do_expand=True):
+def qualified(sql, sources, schema, dialect, do_expand=True, mark_noalias=False):
     """parse / expand / qualify exactly as lineage() does"""
     sqlglot, exp, L, build_scope, qualify, Scope, ScopeType, find_all_in_scope = sg()
     from sqlglot import maybe_parse
     from sqlglot.schema import ensure_schema
 
     expression = maybe_parse(sql, dialect=dialect)
+    if mark_noalias:
+        for tb in expression.find_all(exp.Table):
+            if not tb.alias:
+                tb.meta["c17_noalias"] = True  # qualify_tables will give it an alias; remember it had none
     if sources and do_expand:
         expression = exp.expand(expression, {k: maybe_parse(v, dialect=dialect) for k, v in sources.items()}, dialect=dialect)
     sch = ensure_schema(schema, dialect=dialect)
@@ -651,16 +741,27 @@ def to_model(sql, sources, schema, dialect):
     return req, root, idx, expression
 
 
-def add_table(schema, path, name, cols):
-    """a copy of the nested schema dict with one more table next to the base tables"""
+def add_table(schema, path, tbl, cols, dialect):
+    """a copy of the nested schema dict with one more table: next to the base tables for a one-part name, under its own
+    db for a two-part name (needs a schema of depth >= 2).  None when it cannot be placed."""
     import copy
 
     sch = copy.deepcopy(schema)
-    d = sch
-    for part in [p for p in path.split(".") if p]:
-        d = d[part]
-    d[name] = {c: "int" for c in cols}
-    return sch
+    parts = [p.sql(dialect=dialect) for p in tbl.parts]
+    levels = [p for p in path.split(".") if p]
+    if len(parts) == 1:
+        d = sch
+        for part in levels:
+            d = d[part]
+        d[parts[0]] = {c: "int" for c in cols}
+        return sch
+    if len(parts) == 2 and levels:
+        d = sch
+        for part in levels[:-1]:
+            d = d[part]
+        d.setdefault(parts[0], {})[parts[1]] = {c: "int" for c in cols}
+        return sch
+    return None
 
 
 def ident_parts(tbl):
@@ -688,6 +789,18 @@ def unresolved(scopes):
     return False
 
 
+def implicit_alias_clash(m):
+    """stand-alone qualification names an un-aliased table after its LAST part; when that name also occurs elsewhere in
+    the same piece (an enclosing scope) the qualifiers it hands out are ambiguous between the two, so the piece is
+    not a faithful pre-image of the expanded query (the search oracle covers these shapes)"""
+    if m.get("borrowed"):
+        # sources borrowed from an enclosing scope (correlated subquery, when the source looks them up): in the
+        # un-expanded piece they are still table references and would be instantiated a second time
+        return True
+    aliases = [a for sc in m["scopes"] if sc["k"] == "select" for a, _ in sc["srcs"]]
+    return any(aliases.count(a) > 1 for _, a in m["implicit"])
+
+
 def to_model_unexpanded(sql, sources, schema, path, dialect):
     """the `sources=` presentation WITHOUT running exp.expand: every source query and the main query are qualified on
     their own (the other sources visible as plain tables with their output columns) and flattened separately;
@@ -709,24 +822,24 @@ def to_model_unexpanded(sql, sources, schema, path, dialect):
     defs, refs = [], {}
     for name, body in sources.items():  # dependency order: inner sources were registered first
         tbl = exp.to_table(name, dialect=dialect)
-        if len(tbl.parts) != 1:
-            return None  # qualified keys: not placed into the augmented schema (covered by the search oracle)
         if strategy is None:
             tbl = normalize_identifiers(tbl, dialect=dialect)  # dialect-specific folding done by the real code
-        e = qualified(body, None, sch, dialect)
+        e = qualified(body, None, sch, dialect, mark_noalias=True)
         m = scopes_of(e, refs)
-        if m is None or m[0]["root"] != len(m[0]["scopes"]) - 1 or unresolved(m[0]["scopes"]):
+        if m is None or m[0]["root"] != len(m[0]["scopes"]) - 1 or unresolved(m[0]["scopes"]) or implicit_alias_clash(m[0]):
             return None
-        defs.append({"key": ident_parts(tbl), "scopes": m[0]["scopes"]})
-        sch = add_table(sch, path, name, e.named_selects)
-    e = qualified(sql, None, sch, dialect)
+        defs.append({"key": ident_parts(tbl), "scopes": m[0]["scopes"], "implicit": m[0]["implicit"]})
+        sch = add_table(sch, path, exp.to_table(name, dialect=dialect), e.named_selects, dialect)
+        if sch is None:
+            return None  # a qualified key over a flat schema: not placeable (covered by the search oracle)
+    e = qualified(sql, None, sch, dialect, mark_noalias=True)
     m = scopes_of(e, refs)
-    if m is None or m[0]["root"] != len(m[0]["scopes"]) - 1 or unresolved(m[0]["scopes"]):
+    if m is None or m[0]["root"] != len(m[0]["scopes"]) - 1 or unresolved(m[0]["scopes"]) or implicit_alias_clash(m[0]):
         return None
     if strategy is None:
         refs = {k: ident_parts(normalize_identifiers(exp.to_table(".".join(exp.to_identifier(n, quoted=q).sql(dialect=dialect) for n, q in v), dialect=dialect), dialect=dialect)) for k, v in refs.items()}
     return {"defs": defs, "refs": [[k, v] for k, v in refs.items()], "strategy": strategy or "CASE_SENSITIVE",
-            "scopes": m[0]["scopes"], "cols": m[0]["cols"]}
+            "scopes": m[0]["scopes"], "implicit": m[0]["implicit"], "cols": m[0]["cols"]}
 
 
 def scopes_of(expression, refs=None):
@@ -736,6 +849,8 @@ def scopes_of(expression, refs=None):
     root = build_scope(expression)
     order = list(root.traverse())
     idx = {id(s): i for i, s in enumerate(order)}
+    implicit = []
+    borrowed = []
 
     def table_name(tbl):
         tid = table_id(tbl)
@@ -779,7 +894,21 @@ def scopes_of(expression, refs=None):
             source_names = {dt.alias: dt.comments[0].split()[1] for dt in s.derived_tables
                             if dt.comments and dt.comments[0].startswith("source: ")}
             srcs = []
-            for alias, src in s.sources.items():
+            visible = list(s.sources.items())
+            if OUTER_LOOKUP[0]:
+                # the source form that looks a correlated column up in the enclosing scopes (nearest first)
+                own = set(s.sources)
+                outer_scope = s
+                while (outer_scope.is_subquery or outer_scope.is_union) and outer_scope.parent:
+                    outer_scope = outer_scope.parent
+                    for alias, src in outer_scope.sources.items():
+                        if alias not in own:
+                            own.add(alias)
+                            visible.append((alias, src))
+                            borrowed.append(alias)
+            for alias, src in visible:
+                if not isinstance(src, Scope) and src.meta.get("c17_noalias") and alias in s.sources:
+                    implicit.append([idx[id(s)], alias])
                 if isinstance(src, Scope):
                     if src.scope_type not in (ScopeType.DERIVED_TABLE, ScopeType.CTE):
                         return None
@@ -796,7 +925,7 @@ def scopes_of(expression, refs=None):
         else:
             return None
     cols = [x.alias_or_name for x in root.expression.selects]
-    return {"scopes": out, "root": idx[id(root)], "cols": cols}, root, idx
+    return {"scopes": out, "root": idx[id(root)], "cols": cols, "implicit": implicit, "borrowed": borrowed}, root, idx
 
 
 def wrap_inner(s):
@@ -882,10 +1011,15 @@ class Case:
         self.names = out_names(q)
         self.truth = [norm_truth(flow(q, i, path)) for i in range(len(self.names))]
         self.feats = features(q)
+        oc = all_outer_cols(q)
+        self.outer_names = {c.lower() for _, _, c in oc}
+        self.outer_flow = {(t.lower(), c.lower()) for sel, a, c in oc for t, c in col_flow(sel, a, c, path)}
         if style & 8:
             self.feats.add("paren-root")
         if any(self.nameforms) and "sub" in self.feats:
             self.feats.add("named-sources")
+            if any(f in (9, 10) for f in self.nameforms):
+                self.feats.add("shared-last-part")
 
     def presentations(self):
         out = {}
@@ -895,7 +1029,18 @@ class Case:
         return out
 
 
-KNOWN_FEATS = ("ref-collist", "paren-root")
+KNOWN_FEATS = ("ref-collist", "paren-root", "correlated")
+
+
+def classify(got, exp_, outer_names, outer_flow):
+    g, e = set(map(tuple, got)), set(map(tuple, exp_))
+    kind = "missing" if e - g and not g - e else "extra" if g - e and not e - g else "wrong"
+    if (outer_names and g - e and all(t == "<placeholder>" and c in outer_names for t, c in g - e)
+            and (e - g) <= set(map(tuple, outer_flow))):
+        # the outer column of a correlated subquery ends in a Placeholder leaf (and what flows into it is missing
+        # unless it arrives by another path too)
+        kind = "unresolved-outer"
+    return kind
 
 
 def oracle(case, only=None):
@@ -909,8 +1054,7 @@ def oracle(case, only=None):
         allr = real_leaves(None, sql, sources, case.schema, case.dialect)
         per[name] = (sql, sources, allr)
         if isinstance(allr, tuple):
-            viol.append(("exception", None, {"pres": name, "sql": sql, "sources": sources, "got": allr[1]}))
-            continue
+            continue  # judged below: an exception counts when the other presentations do not raise the same way
         if sorted(allr) != sorted(n.lower() for n in case.names):
             viol.append(("columns", None, {"pres": name, "sql": sql, "sources": sources, "got": sorted(allr),
                                            "expected": sorted(case.names)}))
@@ -924,17 +1068,28 @@ def oracle(case, only=None):
                 viol.append(("all-vs-one", col, {"pres": name, "sql": sql, "sources": sources, "all": got_all, "one": one}))
             got = one if not isinstance(one, tuple) else got_all
             if [list(x) for x in got] != [list(x) for x in exp_]:
-                g, e = set(map(tuple, got)), set(map(tuple, exp_))
-                kind = "missing" if e - g and not g - e else "extra" if g - e and not e - g else "wrong"
+                kind = classify(got, exp_, case.outer_names if "correlated" in case.feats else (), case.outer_flow)
                 viol.append((kind, col, {"pres": name, "sql": sql, "sources": sources, "got": [list(x) for x in got],
                                          "expected": [list(x) for x in exp_]}))
+    # the three-presentations clause for exceptions: a presentation that raises while another one answers (or raises
+    # a different error class) violates it; every presentation raising the same error class does not
+    raising = {n: v[2][1] for n, v in per.items() if isinstance(v[2], tuple)}
+    if raising:
+        classes = {t.split(":")[0] for t in raising.values()}
+        if len(raising) < len(per) or len(classes) > 1:
+            fine = [[v[0], v[1]] for n, v in per.items() if n not in raising]
+            for n, text in raising.items():
+                viol.append(("exception", None, {"pres": n, "sql": per[n][0], "sources": per[n][1], "got": text,
+                                                 "others": fine, "one_presentation": len(raising) == 1}))
     return viol, per
 
 
 def replay_of(case, kind, col, d):
     return {"kind": kind, "column": col, "sql": d["sql"], "sources": d.get("sources"), "schema": case.schema,
             "dialect": case.dialect, "presentation": d.get("pres"), "expected": d.get("expected"),
-            "got": d.get("got") or d.get("one"), "features": sorted(case.feats)}
+            "got": d.get("got") or d.get("one"), "features": sorted(case.feats), "others": d.get("others"),
+            "outer_names": sorted(case.outer_names) if "correlated" in case.feats else [],
+            "outer_flow": sorted(map(list, case.outer_flow))}
 
 
 def check_replay(rp):
@@ -944,6 +1099,12 @@ def check_replay(rp):
     if kind in ("exception", "columns"):
         r = real_leaves(None, sql, sources, schema, dialect)
         if isinstance(r, tuple):
+            others = rp.get("others")
+            if kind == "exception" and others is not None:
+                ok = [o for o in others if not isinstance(real_leaves(None, o[0], o[1], schema, dialect), tuple)]
+                if not ok:
+                    return False, f"every presentation raises ({r[1]})"
+                return True, f"lineage(None) raises {r[1]} in this presentation while {len(ok)} equivalent presentation(s) answer"
             return True, f"lineage(None) raises {r[1]}"
         if kind == "columns" and sorted(r) != sorted(n.lower() for n in rp["expected"]):
             return True, f"output columns {sorted(r)} != {rp['expected']}"
@@ -955,10 +1116,39 @@ def check_replay(rp):
         return (a != one), f"lineage(None)[{col}]={a} vs lineage({col})={one}"
     exp_ = [tuple(x) for x in rp["expected"]]
     got = one if isinstance(one, tuple) else [tuple(x) for x in one]
+    if got != exp_ and not isinstance(one, tuple) and kind != "unresolved-outer":
+        now = classify(got, exp_, set(rp.get("outer_names") or ()), rp.get("outer_flow") or ())
+        if now == "unresolved-outer":
+            return False, (f"leaves of {col!r}: got {got}: differs from the syntactic flow {exp_} only by the outer column of the "
+                           f"correlated subquery ending in a Placeholder (separate finding), not by the recorded {kind!r} defect")
     return (got != exp_), f"leaves of {col!r}: got {got}, syntactic flow {exp_}"
 
 
 # ------------------------------------------------------------------------------------------ minimisation
+def all_outer_cols(q, enclosing=None, acc=None):
+    """every (enclosing select, alias, column) used by a correlated scalar subquery anywhere in the query"""
+    acc = acc if acc is not None else []
+    if isinstance(q, Uni):
+        all_outer_cols(q.left, enclosing, acc)
+        all_outer_cols(q.right, enclosing, acc)
+        return acc
+    for p in q.projs:
+        for a, c in p.outer:
+            acc.append((enclosing, a, c))
+        for sq in p.subqs:
+            all_outer_cols(sq, q, acc)
+    for _, s_ in q.frm:
+        if isinstance(s_, S):
+            all_outer_cols(s_.q, None, acc)
+    return acc
+
+
+def outer_refs(sq):
+    if isinstance(sq, Uni):
+        return outer_refs(sq.left) + outer_refs(sq.right)
+    return [ac for p in sq.projs for ac in p.outer]
+
+
 def shrink_candidates(q):
     """smaller queries (structurally): yields (new_q) — drop a projection, replace a sub-query source by a base table
     of the same column names is not possible in general, so: unwrap union branches, drop scalar subqueries, drop WHERE,
@@ -974,48 +1164,53 @@ def shrink_candidates(q):
         return
     if len(q.projs) > 1:
         for i in range(len(q.projs)):
-            yield Sel(q.projs[:i] + q.projs[i + 1:], q.frm, q.where, q.distinct)
+            yield Sel(q.projs[:i] + q.projs[i + 1:], q.frm, q.where, q.distinct, q.bare)
     if q.where:
-        yield Sel(q.projs, q.frm, None, q.distinct)
+        yield Sel(q.projs, q.frm, None, q.distinct, q.bare)
     if q.distinct:
-        yield Sel(q.projs, q.frm, q.where, False)
-    used = {a for p in q.projs for a, _ in p.cols} | {p.alias for p in q.projs if p.kind == "qstar"}
+        yield Sel(q.projs, q.frm, q.where, False, q.bare)
+    corr = [ac for p in q.projs for sq in p.subqs for ac in outer_refs(sq)]  # columns of THIS select used by inner subqueries
+    used = {a for p in q.projs for a, _ in p.cols} | {p.alias for p in q.projs if p.kind == "qstar"} | {a for a, _ in corr}
     if not any(p.kind == "star" for p in q.projs) and len(q.frm) > 1:
         for i, (a, _) in enumerate(q.frm):
             if a not in used and (not q.where or q.where[0] != a):
-                yield Sel(q.projs, q.frm[:i] + q.frm[i + 1:], q.where, q.distinct)
+                yield Sel(q.projs, q.frm[:i] + q.frm[i + 1:], q.where, q.distinct, q.bare)
     for i, p in enumerate(q.projs):
         if p.kind == "expr":
             if p.subqs:
-                yield Sel(q.projs[:i] + [P("expr", p.name, p.cols, p.subqs[1:], bare=False)] + q.projs[i + 1:], q.frm, q.where, q.distinct)
+                yield Sel(q.projs[:i] + [P("expr", p.name, p.cols, p.subqs[1:], bare=False, outer=p.outer)] + q.projs[i + 1:], q.frm, q.where, q.distinct, q.bare)
                 for j, sq in enumerate(p.subqs):
                     for sq2 in shrink_candidates(sq):
                         if len(out_names(sq2)) == 1:
-                            yield Sel(q.projs[:i] + [P("expr", p.name, p.cols, p.subqs[:j] + [sq2] + p.subqs[j + 1:], bare=False)] + q.projs[i + 1:], q.frm, q.where, q.distinct)
+                            yield Sel(q.projs[:i] + [P("expr", p.name, p.cols, p.subqs[:j] + [sq2] + p.subqs[j + 1:], bare=False, outer=p.outer)] + q.projs[i + 1:], q.frm, q.where, q.distinct, q.bare)
             if len(p.cols) > 1:
                 for j in range(len(p.cols)):
-                    yield Sel(q.projs[:i] + [P("expr", p.name, p.cols[:j] + p.cols[j + 1:], p.subqs, bare=False)] + q.projs[i + 1:], q.frm, q.where, q.distinct)
+                    yield Sel(q.projs[:i] + [P("expr", p.name, p.cols[:j] + p.cols[j + 1:], p.subqs, bare=False, outer=p.outer)] + q.projs[i + 1:], q.frm, q.where, q.distinct, q.bare)
     for i, (a, s) in enumerate(q.frm):
         if isinstance(s, S):
             names = src_names(s)
             if s.collist:
                 # keep the visible names: only droppable when identical to the inner names
                 if list(s.collist) == out_names(s.q):
-                    yield Sel(q.projs, q.frm[:i] + [(a, S(s.q, None))] + q.frm[i + 1:], q.where, q.distinct)
+                    yield Sel(q.projs, q.frm[:i] + [(a, S(s.q, None, False, s.unaliased))] + q.frm[i + 1:], q.where, q.distinct, q.bare)
             for q2 in shrink_candidates(s.q):
-                s2 = S(q2, s.collist, s.ref_collist)
+                s2 = S(q2, s.collist, s.ref_collist, s.unaliased)
                 try:
                     n2 = src_names(s2)
                 except Exception:  # noqa
                     continue
-                needed = {c for p in q.projs for aa, c in p.cols if aa == a} | ({q.where[1]} if q.where and q.where[0] == a else set())
+                needed = {c for aa, c in corr if aa == a} | {c for p in q.projs for aa, c in p.cols if aa == a} | ({q.where[1]} if q.where and q.where[0] == a else set())
                 star = any(p.kind == "star" or (p.kind == "qstar" and p.alias == a) for p in q.projs)
                 if s.collist and len(out_names(q2)) != len(s.collist):
                     continue
                 if (star and n2 != names) or not needed <= set(n2) or len(set(n2)) != len(n2):
                     continue
+                if q.bare or corr:
+                    allf = [n for aa, ss in q.frm for n in (n2 if aa == a else src_names(ss))]
+                    if len(set(allf)) != len(allf):
+                        continue
                 # every other reference to the same shared sub-query keeps pointing at the old one (sharing may be lost)
-                yield Sel(q.projs, q.frm[:i] + [(a, s2)] + q.frm[i + 1:], q.where, q.distinct)
+                yield Sel(q.projs, q.frm[:i] + [(a, s2)] + q.frm[i + 1:], q.where, q.distinct, q.bare)
 
 
 def size(q):
@@ -1040,7 +1235,7 @@ def minimise(case, kind, pres, deadline):
                 break
             try:
                 c2 = Case(q2, case.path, case.dialect, case.style, case.nameforms)
-                v2, _ = oracle(c2, only={pres})
+                v2, _ = oracle(c2, only=None if kind == "exception" else {pres})
             except Exception:  # noqa
                 continue
             hit = [v for v in v2 if v[0] == kind and v[2].get("pres") == pres]
@@ -1048,7 +1243,7 @@ def minimise(case, kind, pres, deadline):
                 cur = c2
                 improved = True
                 break
-    v, _ = oracle(cur, only={pres})
+    v, _ = oracle(cur, only=None if kind == "exception" else {pres})
     hit = [x for x in v if x[0] == kind and x[2].get("pres") == pres]
     return cur, (hit[0] if hit else None)
 
@@ -1064,7 +1259,8 @@ def report(chk, case, v, deadline):
         "missing": "a base column that syntactically flows into the output column is not among the lineage leaves",
         "extra": "the lineage leaves contain a base column that does not flow into the output column",
         "wrong": "lineage leaves differ from the syntactic flow (missing and extra)",
-        "exception": "lineage() raises on a presentation of a query over known tables",
+        "exception": "lineage() raises in this presentation while an equivalent presentation of the same query answers",
+        "unresolved-outer": "the outer column of a correlated scalar subquery ends in a Placeholder leaf instead of its base column",
         "columns": "lineage(None) output columns differ from the query's output columns",
         "all-vs-one": "lineage(None) (shared cache) and lineage(column) disagree",
     }[kind]
@@ -1106,6 +1302,8 @@ def correspond(chk: Check, cases):
                 if ureq is None:
                     chk.count("model:unexpanded-unsupported")
                 else:
+                    if ureq["implicit"] or any(d_["implicit"] for d_ in ureq["defs"]):
+                        chk.count("model:expand-unaliased-reference-cases")
                     reqs.append(json.dumps(ureq))
                     meta.append((case, "src-unexpanded", sql, sources, ureq, real_all, entries))
     if not reqs:
@@ -1188,7 +1386,10 @@ def gen_case(rng, max_depth):
     nameforms = ()
     if rng.random() < 0.55:
         # how sources= keys / CTE names are spelled: quoted, case-altering, needing quotes, qualified
-        nameforms = tuple(rng.choice([0, 1, 1, 1, 2, 2, 3, 4, 5, 6, 7, 8]) for _ in range(5))
+        nameforms = tuple(rng.choice([0, 1, 1, 1, 2, 2, 3, 4, 5, 6, 7, 8, 9, 10]) for _ in range(5))
+        if rng.random() < 0.3:
+            # a cluster of qualified sources sharing their last name part (and the base table `orders`)
+            nameforms = tuple(rng.choice([9, 9, 10, 7]) for _ in range(5))
     return Case(q, path, dialect, style, nameforms)
 
 
@@ -1212,6 +1413,26 @@ def corpus_cases():
     # union of unions under star, nested
     un2 = Uni("UNION", un, Sel([P("expr", "e", [("v", "e")], bare=True), P("expr", "f", [("v", "f")], bare=True)], [("v", T("v"))]))
     out.append(Sel([P("qstar", alias="w"), P("expr", "z", [("w", "a"), ("w", "b")])], [("w", S(un2))]))
+    # --- unaliased, qualified sources sharing their last name part (nameforms 9/10: stg.orders, mart.orders, …)
+    def tab(cols, base):
+        return Sel([P("expr", c, [(base, bc)], bare=(c == bc)) for c, bc in cols], [(base, T(base))])
+
+    src_a = tab([("a", "a"), ("b", "b")], "t")   # -> stg.orders
+    src_d = tab([("d", "d")], "u")               # -> mart.orders
+    # side by side in one FROM, no aliases, bare columns
+    q1 = Sel([P("expr", "x", [("p", "a"), ("q", "d")])], [("p", S(src_a, unaliased=True)), ("q", S(src_d, unaliased=True))], bare=True)
+    # a source next to the base table `orders`
+    q2 = Sel([P("expr", "x", [("p", "b"), ("orders", "h")])], [("p", S(src_a, unaliased=True)), ("orders", T("orders"))], bare=True)
+    # correlated: the inner FROM is one source, the outer FROM another one with the same last part; the inner
+    # expression uses a column of the OUTER relation
+    inner = Sel([P("expr", "k", [("p", "a")], outer=[("q", "d")])], [("p", S(src_a, unaliased=True))], bare=True)
+    q3 = Sel([P("expr", "total", [], [inner])], [("q", S(src_d, unaliased=True))], bare=True)
+    inner4 = Sel([P("expr", "k", [("p", "a")], outer=[("orders", "h")])], [("p", S(src_a, unaliased=True))], bare=True)
+    q4 = Sel([P("expr", "total", [("orders", "i")], [inner4])], [("orders", T("orders"))], bare=True)
+    for q_, nf in ((q1, (9, 9, 9)), (q1, (10, 10, 10)), (q2, (9, 9)), (q3, (9, 9, 9)), (q4, (10, 9))):
+        q_ = Sel(q_.projs, q_.frm, q_.where, q_.distinct, q_.bare)
+        q_.nameforms = nf
+        out.append(q_)
     return out
 
 
@@ -1241,7 +1462,9 @@ def run(chk: Check) -> None:
     cases = []
     for q in corpus_cases():
         for d in (None, "snowflake"):
-            cases.append(Case(q, "", d))
+            # the qualified-name templates run over a depth-2 schema so that the un-expanded tie can place their keys
+            cases.append(Case(q, "db." if getattr(q, "nameforms", ()) else "", d, 0, getattr(q, "nameforms", ())))
+    ncorpus = len(cases)
     while len(cases) < ncorr:
         try:
             cases.append(gen_case(rng, 3))
@@ -1257,7 +1480,7 @@ def run(chk: Check) -> None:
     min_budget, min_spent = 0.4 * budget, 0.0
     n = 0
     seen_keys = set()
-    queue = list(hints) + [c for c in cases[:10]]
+    queue = list(hints) + [c for c in cases[:ncorpus]]
     while time.time() < deadline:
         if queue:
             case = queue.pop(0)
